@@ -34,6 +34,7 @@ CONSTANTS
     IgnoreCC,     \* ignore_cache_control
     ForceDefault, \* force_default_max_age
     MaxVer, MaxNow, MaxX,
+    Unlinks,        \* the environment may remove an entry's data file (file backend)
     StoreMayRefuse, \* the cache may refuse to keep a storable answer (empty body on the file backend, no room):
                   \* the answer is then handled like one that is not storable (every waiter fetches its own)
     Retry416,     \* retry_on_range_416: a 416 from the origin is retried once without the Range header
@@ -56,7 +57,8 @@ VARIABLES
 
 vars == <<now, origin, store, flight, creq, contacts, nextX, served, last>>
 
-NoEntry   == [present |-> FALSE, ver |-> 0, form |-> "none", val |-> "none", storedAt |-> 0, expires |-> 0]
+NoEntry   == [present |-> FALSE, ver |-> 0, form |-> "none", val |-> "none", storedAt |-> 0, expires |-> 0, lost |-> FALSE]
+\* lost: the entry is known but its data can no longer be opened (file backend: the file vanished behind the cache's back)
 NoFlight  == [active |-> FALSE, leader |-> 0, followers |-> {}, x |-> 0]
 Idle      == [st |-> "idle", r |-> 0, kind |-> "get", cond |-> "none", x |-> 0]
 NoContact == [open |-> FALSE, c |-> 0, oc |-> 0, r |-> 0, kind |-> "get", leader |-> FALSE, reval |-> FALSE,
@@ -107,6 +109,14 @@ Send(c, r, kind, cond) ==
                  /\ creq' = [creq EXCEPT ![c] = [st |-> "wait", r |-> r, kind |-> kind, cond |-> cond, x |-> 0]]
                  /\ last' = {}
                  /\ UNCHANGED <<store, contacts, nextX>>
+            ELSE IF store[r].present /\ store[r].lost
+            THEN \* the lookup fails (the data cannot be opened): this client fetches for itself, nothing is stored
+                 /\ nextX <= MaxX
+                 /\ contacts' = [contacts EXCEPT ![nextX] = OpenX(c, r, "get", FALSE, FALSE, NoEntry)]
+                 /\ creq' = [creq EXCEPT ![c] = [st |-> "origin", r |-> r, kind |-> kind, cond |-> cond, x |-> nextX]]
+                 /\ nextX' = nextX + 1
+                 /\ last' = {}
+                 /\ UNCHANGED <<store, flight>>
             ELSE IF Fresh(store[r])
             THEN \* answered from the store without contacting the origin
                  /\ last' = {Resp(c, 200, store[r].ver, "HIT", now - store[r].storedAt, store[r].expires - now, "store")}
@@ -138,7 +148,7 @@ ReplyStatuses(x) ==
 
 NewEntry(r) ==
     [present |-> TRUE, ver |-> origin[r].ver, form |-> origin[r].form, val |-> origin[r].val,
-     storedAt |-> now, expires |-> now + Life(origin[r].form)]
+     storedAt |-> now, expires |-> now + Life(origin[r].form), lost |-> FALSE]
 
 \* Reply(x, status, st, lr): the origin answers; st resolves "either" forms: was the 200 stored?
 \* lr: when the answer to a flight's fetch cannot be served from the store, does the leader, like its
@@ -221,6 +231,14 @@ Evict(r) ==
     /\ last' = {}
     /\ UNCHANGED <<now, origin, flight, creq, contacts, nextX, served>>
 
+\* the data file of an entry disappears behind the cache's back (not while a flight for it is in progress)
+Unlink(r) ==
+    /\ Unlinks /\ store[r].present /\ ~store[r].lost /\ ~flight[r].active
+    /\ \A x \in 1..MaxX : contacts[x].open => contacts[x].r # r
+    /\ store' = [store EXCEPT ![r].lost = TRUE]
+    /\ last' = {}
+    /\ UNCHANGED <<now, origin, flight, creq, contacts, nextX, served>>
+
 OriginChange(r, f, v) ==
     /\ origin[r].ver < MaxVer
     /\ origin' = [origin EXCEPT ![r] = [ver |-> @.ver + 1, form |-> f, val |-> v]]
@@ -254,6 +272,7 @@ Next ==
           Reply(x, s, st, contacts[x].leader /\ contacts[x].kind = "get")
     \/ \E d \in 1..3 : Shift(d)
     \/ \E r \in Res : Evict(r)
+    \/ \E r \in Res : Unlink(r)
     \/ \E r \in Res, f \in Forms, v \in ValKinds : OriginChange(r, f, v)
     \/ \E c \in Clients : Disconnect(c)
 
